@@ -243,3 +243,98 @@ func vFlat(a, b string) string {
 	}
 	return "N"
 }
+
+// VH_C01_grouping: the whole ToMultiAlign() on SAM text whose FLAG values, query names and positions are
+// explored by solver case split: unmapped (0x4) and secondary (0x100) records never contribute and never
+// split or merge groups; consecutive kept records of one name form one FASTA record; records keep input order.
+func VH_C01_grouping() {
+	NR := vParam("NR")
+	flagset := []int{0, 2064, 4, 272}
+	type rec struct {
+		name string
+		flag int
+		pos  int
+		seq  []byte
+	}
+	recs := make([]rec, NR)
+	txt := "@HD\tVN:1.6\n@SQ\tSN:ref\tLN:4\n"
+	for i := 0; i < NR; i++ {
+		r := rec{}
+		if vBool(vName("nameB", i)) {
+			r.name = "b"
+		} else {
+			r.name = "a"
+		}
+		r.flag = flagset[vChoice(vName("flag", i), len(flagset))]
+		r.pos = 1 + 2*vChoice(vName("half", i), 2) // 1 or 3
+		r.seq = []byte{vNuc(vName("s", i, 0), "ACGT"), vNuc(vName("s", i, 1), "ACGT")}
+		recs[i] = r
+		txt += r.name + "\t" + itoa(r.flag) + "\tref\t" + itoa(r.pos) + "\t60\t2M\t*\t0\t0\t" + string(r.seq) + "\t*\n"
+	}
+	w := &vCapture{}
+	err := ToMultiAlign(bytes.NewReader([]byte(txt)), w, 0, -1, -1, false, 2)
+	vAssert("C01.grp.no-error", err == nil)
+	// definition
+	exp := ""
+	cur := ""
+	var row []byte
+	flush := func() {
+		if cur == "" {
+			return
+		}
+		first, last := -1, -1
+		for i := 0; i < 4; i++ {
+			if row[i] != '*' {
+				if first < 0 {
+					first = i
+				}
+				last = i
+			}
+		}
+		out := make([]byte, 4)
+		for i := 0; i < 4; i++ {
+			c := row[i]
+			if c == '*' {
+				if i < first || i > last {
+					c = '-'
+				} else {
+					c = 'N'
+				}
+			}
+			out[i] = c
+		}
+		exp += ">" + cur + "\n" + string(out) + "\n"
+	}
+	for _, r := range recs {
+		if r.flag&4 != 0 || r.flag&256 != 0 {
+			continue
+		}
+		if r.name != cur {
+			flush()
+			cur = r.name
+			row = []byte("****")
+		}
+		for j := 0; j < 2; j++ {
+			p := r.pos - 1 + j
+			if row[p] == '*' {
+				row[p] = r.seq[j]
+			} else if row[p] != r.seq[j] {
+				row[p] = 'N'
+			}
+		}
+	}
+	flush()
+	vAssert("C01.grp.one-record-per-query-name-in-input-order", string(w.buf) == exp)
+}
+
+func itoa(i int) string {
+	if i == 0 {
+		return "0"
+	}
+	s := ""
+	for i > 0 {
+		s = string(rune('0'+i%10)) + s
+		i /= 10
+	}
+	return s
+}
